@@ -108,8 +108,21 @@ def make_classes(tree: Dict[str, Any], url: str):
     from async_upnp_client.server import UpnpServerDevice, UpnpServerService
 
     counter = [0]
+    shared = [0]
+
+    svc_classes: Dict[Tuple[str, str], Any] = {}
 
     def svc_class(stype: str, sid: str):
+        # ONE class per (service type, service id): devices of the tree that list the same service share the class
+        # (as applications do: `SERVICES = [ConnectionManager]` on several devices); each device gets its own instance
+        if (stype, sid) in svc_classes:
+            shared[0] += 1
+            return svc_classes[(stype, sid)]
+        cls = _new_svc_class(stype, sid)
+        svc_classes[(stype, sid)] = cls
+        return cls
+
+    def _new_svc_class(stype: str, sid: str):
         counter[0] += 1
         n = counter[0]
         return type(f"Svc{n}", (UpnpServerService,), {
@@ -235,6 +248,11 @@ def tree_tags(device) -> List[str]:
         out.append("tree:device-type-equals-service-type")
     if len({d.udn.lower() for d in devs}) < len(devs):
         out.append("tree:shared-udn")
+    seen_cls: Dict[Any, int] = {}
+    for x in svcs:
+        seen_cls[type(x)] = seen_cls.get(type(x), 0) + 1
+    if any(n > 1 for n in seen_cls.values()):
+        out.append("tree:service-class-on-several-devices")
     if any(d.device_url != device.device_url for d in devs):
         out.append("tree:embedded-device-with-own-url")
     for d in devs:
@@ -792,7 +810,28 @@ def rand_search(rng: random.Random, st: Optional[str]) -> Dict[str, Any]:
     return s
 
 
+def share_services(rng: random.Random, tree: Dict[str, Any]) -> None:
+    """make devices of the tree list the SAME service (type and id, hence one class): root and embedded, siblings,
+    nested levels; every (device, service type) pair must still be answered / advertised under its own device's UDN"""
+    devs = flatten(tree)
+    donors = [d for d in devs if d["svcs"]]
+    if len(devs) < 2 or not donors:
+        return
+    for _ in range(rng.choice([1, 1, 2, 3])):
+        src = rng.choice(donors)
+        i = rng.randrange(len(src["svcs"]))
+        ty, sid = svc_pairs(src)[i]
+        src["svcs"][i] = [ty, sid]                      # pin the id so that both list the identical service
+        dst = rng.choice([d for d in devs if d is not src])
+        if len(dst["svcs"]) >= 3:
+            dst["svcs"][rng.randrange(len(dst["svcs"]))] = [ty, sid]
+        else:
+            dst["svcs"].append([ty, sid])
+
+
 def tree_cases(rng: random.Random, tree: Dict[str, Any], prefix: str, per_case: int = 10) -> List[Dict[str, Any]]:
+    if rng.random() < 0.5:
+        share_services(rng, tree)
     targets = all_targets(rng, tree)
     rng.shuffle(targets)
     recipes = []
@@ -982,6 +1021,18 @@ CORPUS += [
                             ["search", {"st": "uuid:e\uff4db", "via": "direct"}],
                             ["search", {"st": "urn:schemas-upnp-org:\u017fervice:B:1", "via": "direct"}],
                             ["search", {"st": "urn:schemas-upnp-org:device:Emb:\uff11", "via": "direct"}]]},
+]
+
+
+_CM = ["urn:schemas-upnp-org:service:ConnectionManager:2", "urn:upnp-org:serviceId:ConnectionManager"]
+CORPUS += [
+    # batch 6: ONE service class on root, an embedded device, its sibling and a nested device: each (device, service)
+    # pair is answered and advertised under its own device's UDN
+    {"tree": _t("uuid:root", "urn:schemas-upnp-org:device:Root:1", [_CM],
+                [_t("uuid:e1", "urn:schemas-upnp-org:device:Emb:1", [_CM], [_t("uuid:n1", "urn:schemas-upnp-org:device:Leaf:1", [_CM])]),
+                 _t("uuid:e2", "urn:schemas-upnp-org:device:Emb:1", [_CM])]),
+     "ops": [["search", {"st": "ssdp:all"}], ["search", {"st": "urn:schemas-upnp-org:service:ConnectionManager:1", "mx": "1", "sel": 0}],
+             ["astart"], ["advance", 400000], ["astop"]]},
 ]
 
 
